@@ -212,8 +212,10 @@ def finish(pid, tier, seed, mod, unit_results, wall):
                 violations.append(r)
         elif r['status'] == 'error':
             errors.append(r)
-    os.makedirs(os.path.join(VERIF, 'replays', pid), exist_ok=True)
-    os.makedirs(os.path.join(VERIF, 'evidence'), exist_ok=True)
+    repdir = os.path.join(os.environ.get('VERIF_EVIDENCE_DIR') or VERIF, 'replays', pid)
+    os.makedirs(repdir, exist_ok=True)
+    evdir = os.environ.get('VERIF_EVIDENCE_DIR') or os.path.join(VERIF, 'evidence')
+    os.makedirs(evdir, exist_ok=True)
     printed = set()
     for r in known_hit:
         if r['key'] not in printed:
@@ -221,7 +223,7 @@ def finish(pid, tier, seed, mod, unit_results, wall):
             print('KNOWN-FINDING: property=%s %s (%s)' % (pid, r['key'], known_active[r['key']].get('what', '')[:160]))
     vio_lines = []
     for i, r in enumerate(violations):
-        path = os.path.join(VERIF, 'replays', pid, '%s_%d.json' % (tier, i))
+        path = os.path.join(repdir, '%s_%d.json' % (tier, i))
         rec = {'property': pid, 'key': r['key'], 'unit': r['unit'], 'detail': r['detail'], 'witness': r['witness'],
                'replay': r['replay']}
         with open(path, 'w') as fh:
@@ -265,7 +267,7 @@ def finish(pid, tier, seed, mod, unit_results, wall):
         'wall_s': round(wall, 2),
         'violations': len(violations),
     }
-    with open(os.path.join(VERIF, 'evidence', '%s.json' % pid), 'w') as fh:
+    with open(os.path.join(evdir, '%s.json' % pid), 'w') as fh:
         json.dump(ev, fh, indent=1, default=str)
     print('%s %s: obligations=%d discharged=%d inconclusive=%d known=%d new-violations=%d errors=%d paths=%d validated=%d '
           'queries=%d solver_s=%s wall=%.1fs' % (pid, tier, nob, counts['discharged'], counts['inconclusive'], len(known_hit),
